@@ -64,6 +64,16 @@ func checkC15(c *Ctx) {
 		return
 	}
 	c.checkPins(f, "C15.bcd", c15Pins)
+	// Name<T, U> in a type expression is an INSTANCE: the declared type with its parameters replaced positionally
+	var inst []pin
+	for _, p := range irFactoryPins {
+		switch p.fn {
+		case "GenType", "GenRecordType", "GenUnionType", "tpReplaceOne", "tpreplace":
+			inst = append(inst, p)
+		}
+	}
+	r.Rule("C15.i", "a generic type applied to arguments is instantiated positionally and the replacement reaches every component of the declared type (closed forms of GenType/GenRecordType/GenUnionType/tpreplace)", 5)
+	c.checkPins(f, "C15.i", inst)
 	checkExternalNamesQualified(c, "C15.f", f)
 	checkLexerVsTypeSyntax(c, "C15.g", f)
 	checkBaseNameTables(c, "C15.h", f)
